@@ -24,6 +24,13 @@ Section Transform.
     let new_z := m20 m * x + m21 m * y + m22 m * z + m23 m in
     let w := m30 m * x + m31 m * y + m32 m * z + m33 m in
     vdivs (mkV3 new_x new_y new_z) w.
+  (** the [debug_assert!((1.0 - w.abs()) < 2. * Float::EPSILON)] of mul4x4point: a panic of debug builds only.  With an
+      affine matrix (last row 0 0 0 1) it fires exactly when a coordinate of the point is infinite or NaN (0 * inf = NaN,
+      and the comparison is false on NaN).  Reported separately, as for the other debug assertions. *)
+  Definition mul4x4point_debug_ok (m : M4) (p : V) : bool :=
+    let '(x, y, z) := (vx p, vy p, vz p) in
+    let w := m30 m * x + m31 m * y + m32 m * z + m33 m in
+    (n1 - nabs w) <? n2 * neps.
   Definition mul4x4vec (m : M4) (v : V) : V :=
     let '(x, y, z) := (vx v, vy v, vz v) in
     mkV3 (m00 m * x + m01 m * y + m02 m * z)
@@ -150,6 +157,14 @@ Section Transform.
     let r := bbox_from_union_point r (p (vx mx) (vy mx) (vz mn)) in
     let r := bbox_from_union_point r (p (vx mx) (vy mn) (vz mx)) in
     bbox_from_union_point r (p (vx mx) (vy mx) (vz mx)).
+  (** do the eight [mul4x4point] calls of [bbox_by] pass their debug assertion? *)
+  Definition bbox_by_debug_ok (m : M4) (b : BBox K) : bool :=
+    let mn := bmin b in let mx := bmax b in
+    let p x y z := mul4x4point_debug_ok m (mkV3 x y z) in
+    p (vx mn) (vy mn) (vz mn) && p (vx mx) (vy mn) (vz mn) && p (vx mn) (vy mx) (vz mn) && p (vx mn) (vy mn) (vz mx) &&
+    p (vx mn) (vy mx) (vz mx) && p (vx mx) (vy mx) (vz mn) && p (vx mx) (vy mn) (vz mx) && p (vx mx) (vy mx) (vz mx).
+  Definition tr_pt_debug_ok (t : Tr) (p : V) : bool := mul4x4point_debug_ok (elements t) p.
+  Definition tr_bbox_debug_ok (t : Tr) (b : BBox K) : bool := bbox_by_debug_ok (elements t) b.
   Definition tr_bbox (t : Tr) := bbox_by (elements t).
   Definition tr_inv_bbox (t : Tr) := bbox_by (inv_elements t).
 End Transform.
